@@ -72,7 +72,7 @@ package tso
 
 // C02/C03: the window write is a leader-guarded transaction; lastSavedTime follows it only on success.
 //@ func (*timestampOracle).saveTimestamp
-//@   props C02 C03
+//@   props C01 C02 C03
 //@   requires leadership != nil
 //@   ensures [onecommit] etcdn[0] <= old(etcdn[0]) + 1
 //@   ensures [ok-committed] result == nil ==> etcdn[0] == old(etcdn[0]) + 1
@@ -87,7 +87,7 @@ package tso
 
 // C02: the window is extended (next + saveInterval persisted) before memory moves; a failed save leaves memory alone.
 //@ func (*timestampOracle).UpdateTimestamp
-//@   props C02
+//@   props C01 C02
 //@   requires wfOracle(t) && leadership != nil && windowInv(t)
 //@   ensures [window] windowInv(t)
 //@   ensures [fail-unchanged] result != nil ==> t.tsoMux.physical == old(t.tsoMux.physical) && t.tsoMux.logical == old(t.tsoMux.logical)
